@@ -48,9 +48,19 @@ def build(ck, name, main, sources, sanitize=True, extra_includes=()):
                                 sanitize=sanitize) for j in jobs}
         for n, f in futs.items():
             objs[n] = f.result()
-    libs = [objs[j[0]] for j in jobs] + ck.libflags(*LIBS)
     empty = ck.write("empty_%s.cxx" % name, "")
-    return ck.cxx(name, [empty], libs=libs, sanitize=sanitize)
+    last = None
+    for attempt in range(4):
+        # the shared libraries of the build tree may be in the middle of a relink by a concurrent build:
+        # a failed link is retried a few times before it counts as a broken tie
+        try:
+            libs = [objs[j[0]] for j in jobs] + ck.libflags(*LIBS)
+            return ck.cxx(name, [empty], libs=libs, sanitize=sanitize)
+        except vlib.BuildError as e:
+            last = e
+            import time
+            time.sleep(30)
+    raise last
 
 
 def hx(x):
